@@ -692,6 +692,125 @@ fn step_loose(cfg: &WorldCfg, s: &Script, e: &Ev) -> Script {
     cfg.step(s, e)
 }
 
+
+// ------------------------------------------------------------------ no-settle mode
+
+/// The same history with its events fired back to back, without waiting for quiescence: the
+/// kernel and tokio pick the interleaving. Only schedule-independent safety invariants are
+/// evaluated (at the end): a started handler ends at most one way and - once every gate is open,
+/// every client gone and shutdown has finished - exactly one way; Detached never drops;
+/// close() does not return before the last started handler ended; responses read carry their
+/// own id. These runs are never called exhaustive.
+pub fn run_history_nosettle(cfg: &WorldCfg, events: &[Ev]) -> Outcome {
+    let mut out = Outcome { failures: vec![], trace: vec![], degraded_sync: 0, machinery: None };
+    let world = World::new();
+    let mut srv = match LiveServer::start(api(), world.clone(), ServerOpts { mode: cfg.mode, rt: cfg.rt, ..Default::default() }) {
+        Ok(s) => s,
+        Err(e) => {
+            out.machinery = Some(format!("server start: {e}"));
+            return out;
+        }
+    };
+    let addr = srv.addr;
+    let detached = cfg.mode == HandlerTaskMode::Detached;
+    let n = cfg.kinds.len();
+    let ids: Vec<String> = (0..n).map(|i| format!("c{i}")).collect();
+    let mut conns: Vec<Option<Conn>> = (0..n).map(|_| None).collect();
+    let mut sent = vec![false; n];
+    let mut close_rx = None;
+    macro_rules! fail {
+        ($kind:expr, $exp:expr, $obs:expr) => {
+            out.failures.push(Failure { kind: $kind.to_string(), step: 0, expected: $exp, observed: $obs })
+        };
+    }
+    for ev in events {
+        match *ev {
+            Ev::Connect(i) => conns[i] = Conn::connect(addr).ok(),
+            Ev::SendHalf(i) => {
+                let b = req_bytes(cfg.kinds[i], &ids[i]);
+                if let Some(c) = conns[i].as_mut() {
+                    let _ = c.send(&b[..b.len() / 2]);
+                }
+            }
+            Ev::Send(i) => {
+                let b = req_bytes(cfg.kinds[i], &ids[i]);
+                if let Some(c) = conns[i].as_mut() {
+                    let _ = c.send(&b);
+                    sent[i] = true;
+                }
+            }
+            Ev::Release(i) => world.release(&ids[i]),
+            Ev::Read(i) => {
+                if let Some(c) = conns[i].as_mut() {
+                    if sent[i] && cfg.kinds[i] != Kind::Panic {
+                        match c.read_response(false, POS) {
+                            ReadOutcome::Resp(r) => {
+                                if r.status == 200 && cfg.kinds[i] != Kind::Big && r.json().map(|j| j["id"] != json!(ids[i])).unwrap_or(true) {
+                                    fail!("response_carries_another_id", json!(ids[i]), r.to_json());
+                                }
+                            }
+                            ReadOutcome::Timeout => fail!("response_not_delivered", json!("a response for a released handler whose client stays"), json!("timeout")),
+                            _ => {}
+                        }
+                    }
+                }
+            }
+            Ev::Close(i) => {
+                conns[i] = None;
+            }
+            Ev::Reset(i) => {
+                if let Some(c) = conns[i].take() {
+                    c.reset_on_close();
+                }
+            }
+            Ev::Shutdown => {
+                if close_rx.is_none() {
+                    close_rx = Some(srv.close_async());
+                }
+            }
+            Ev::Waiter => {}
+        }
+    }
+    // open every gate, drop every client, shut down
+    for id in &ids {
+        world.release(id);
+        world.release(id);
+    }
+    for c in conns.iter_mut() {
+        *c = None;
+    }
+    let rx = close_rx.unwrap_or_else(|| srv.close_async());
+    match rx.recv_timeout(POS) {
+        Err(_) => fail!("shutdown_did_not_finish", json!("close() returns once every client left and every gate opened"), json!("still pending after 10 s")),
+        Ok(_) => {
+            let at_close = world.board.snapshot();
+            std::thread::sleep(Duration::from_millis(50));
+            let later = world.board.snapshot();
+            if later.len() != at_close.len() {
+                fail!("handler_progress_after_shutdown_finished", json!("no handler event after close() returned"), json!({"events_after": later[at_close.len()..].to_vec()}));
+            }
+            let count = |k: &str, id: &str| later.iter().filter(|(kk, i)| kk == k && i == id).count();
+            for (i, id) in ids.iter().enumerate() {
+                let (en, co, dr) = (count("entered", id), count("completed", id), count("dropped", id));
+                if cfg.kinds[i] == Kind::Panic {
+                    continue;
+                }
+                if en > 1 || co + dr > 1 {
+                    fail!("handler_ended_twice", json!("entered <= 1, completed + dropped <= 1"), json!({"id": id, "entered": en, "completed": co, "dropped": dr}));
+                }
+                if detached && dr > 0 {
+                    fail!("detached_handler_dropped", json!("never"), json!({"id": id, "dropped": dr}));
+                }
+                if en == 1 && co + dr != 1 {
+                    fail!("handler_still_running_after_shutdown_finished", json!("every started handler has ended when close() returns"), json!({"id": id, "completed": co, "dropped": dr}));
+                }
+            }
+        }
+    }
+    out.trace.push(json!({"nosettle_board": world.board.snapshot()}));
+    out
+}
+
 // ------------------------------------------------------------------ exploration
 
 pub struct Explore {
